@@ -264,16 +264,17 @@ impl std::ops::Mul<Float> for ApproxFloat {
         // self * Self::from(other)
 
         // assume it is possitive
-        let mut min = next_float_down(self.low * other);
-        let mut max = next_float_up(self.high * other);
+        let mut min = self.low * other;
+        let mut max = self.high * other;
         // Swap if I was wrong.
         if min > max {
             std::mem::swap(&mut min, &mut max);
         }
 
+        // round outwards only after knowing which product is which bound
         Self {
-            low: next_float_down(min),
-            high: next_float_up(max),
+            low: next_float_down(next_float_down(min)),
+            high: next_float_up(next_float_up(max)),
         }
     }
 }
